@@ -69,8 +69,11 @@ bool matchglob(const std::string& pattern, const std::string& name, bool caseIns
             switch (*p) {
             case '*':
                 // Step forward until we match the next character after *
-                while (*n != '\0' && *n != p[1]) {
-                    n++;
+                // (only if that character has to match literally and exactly)
+                if (!caseInsensitive && p[1] != '*' && p[1] != '?') {
+                    while (*n != '\0' && *n != p[1]) {
+                        n++;
+                    }
                 }
                 if (*n != '\0') {
                     // If this isn't the last possibility, save it for later
